@@ -39,6 +39,23 @@ Theorem c03_stop_ends_the_work : forall t v script k,
   c03_tail_ok k (fst (run script (deserialize t v) [])) (snd (run script (deserialize t v) [])) = true.
 Proof. exact deserialize_stop_ends_the_work. Qed.
 
+(** Under EVERY script (also those that go back to Continue later): a report or hand-over that is
+    answered Break is immediately followed by the hand-over of its result to the enclosing
+    container, or it is the last call and its result is what [deserialize] returns - nothing is
+    examined in between. *)
+Theorem c03_stop_next : forall t v script pre c post,
+  snd (run script (deserialize t v) []) = pre ++ c :: post ->
+  creates c = true -> script (N.of_nat (List.length pre)) = false ->
+  next_ok (N.of_nat (List.length pre)) post
+  /\ (post = [] -> fst (run script (deserialize t v) []) = RErr (N.of_nat (List.length pre))).
+Proof. exact deserialize_stop_next. Qed.
+
+Check c03_stop_next : forall t v script pre c post,
+  snd (run script (deserialize t v) []) = pre ++ c :: post ->
+  creates c = true -> script (N.of_nat (List.length pre)) = false ->
+  next_ok (N.of_nat (List.length pre)) post
+  /\ (post = [] -> fst (run script (deserialize t v) []) = RErr (N.of_nat (List.length pre))).
+
 (* non-vacuity: the stop happens inside a Vec inside a struct; two hand-overs follow *)
 Example c03_example :
   let u8 := TInt {| i_signed := false; i_width := W8; i_nonzero := false |} in
@@ -66,3 +83,4 @@ Check c03_causal : forall t a v l (sc1 sc2 : N -> bool) (k : N) (s : list call),
 Print Assumptions c03_causal.
 Print Assumptions c03_failfast_first.
 Print Assumptions c03_stop_ends_the_work.
+Print Assumptions c03_stop_next.
